@@ -22,4 +22,15 @@ def specCli (compute : List Nat × List Nat → Option (List Nat)) (bytes : List
     | none => ⟨1, []⟩
     | some out => ⟨0, out⟩
 
+/-- `Input::new` (`core/src/input.rs`): with a path argument while stdin is not a terminal, or without a path while stdin
+    is a terminal, the invocation is refused — unless the environment variable `SFS_ALLOW_STDIN` is set. -/
+inductive InputSel where
+  | path | stdin
+deriving Repr, DecidableEq
+
+def inputNew (pathGiven stdinIsTerminal envSet : Bool) : Option InputSel :=
+  if pathGiven && !stdinIsTerminal && !envSet then none
+  else if !pathGiven && stdinIsTerminal && !envSet then none
+  else some (if pathGiven then .path else .stdin)
+
 end Sfs
